@@ -7,6 +7,7 @@ import (
 	"path/filepath"
 	"sort"
 	"strings"
+	"time"
 
 	"potano.layercake/config"
 	"potano.layercake/fs"
@@ -327,10 +328,28 @@ func runScenario(c Case) interface{} {
 	steps, _ := c["steps"].([]interface{})
 	out := []interface{}{}
 	for _, s := range steps {
-		out = append(out, e.runStep(s.(map[string]interface{})))
+		// a command must return in bounded time: a step that does not is reported as
+		// "timeout"; its goroutine cannot be stopped, so the harness ends after this case
+		ch := make(chan interface{}, 1)
+		go func() { ch <- e.runStep(s.(map[string]interface{})) }()
+		select {
+		case r := <-ch:
+			out = append(out, r)
+		case <-time.After(stepTimeout):
+			out = append(out, obj("cls", "timeout"))
+			abortAfterEmit = true
+		}
+		if abortAfterEmit {
+			break
+		}
 	}
 	return obj("steps", out)
 }
+
+var stepTimeout = 10 * time.Second
+
+// set when a runaway goroutine is left behind: main flushes the case and exits with status 3
+var abortAfterEmit bool
 
 func init() {
 	ops["scenario"] = runScenario
